@@ -354,6 +354,12 @@ func (t *transitiveClosure) includeType(
 		if !options.allowImportedTypes && descriptorInfo.file.IsImport() {
 			return fmt.Errorf("inclusion of type %q: %w", typeName, ErrImageFilterTypeIsImport)
 		}
+		// If a method, check if the input or output type is excluded.
+		if method, ok := descriptorInfo.element.(*descriptorpb.MethodDescriptorProto); ok {
+			if err := t.checkMethodTypesNotExcluded(method, typeName, imageIndex); err != nil {
+				return fmt.Errorf("inclusion of type %q: %w", typeName, err)
+			}
+		}
 		// Check if the type is already excluded.
 		if mode := t.elements[descriptorInfo.element]; mode == inclusionModeExcluded {
 			return fmt.Errorf("inclusion of excluded type %q", typeName)
@@ -401,6 +407,23 @@ func (t *transitiveClosure) includeType(
 		if err := t.addElement(fileDescriptor, "", false, imageIndex, options); err != nil {
 			return fmt.Errorf("inclusion of type %q: %w", typeName, err)
 		}
+	}
+	return nil
+}
+
+// checkMethodTypesNotExcluded returns an error if the input or output type of the method is excluded.
+func (t *transitiveClosure) checkMethodTypesNotExcluded(
+	method *descriptorpb.MethodDescriptorProto,
+	methodName protoreflect.FullName,
+	imageIndex *imageIndex,
+) error {
+	inputName := protoreflect.FullName(strings.TrimPrefix(method.GetInputType(), "."))
+	if inputInfo, ok := imageIndex.ByName[inputName]; ok && t.elements[inputInfo.element] == inclusionModeExcluded {
+		return fmt.Errorf("cannot include method %q as the input type %q is excluded", methodName, inputName)
+	}
+	outputName := protoreflect.FullName(strings.TrimPrefix(method.GetOutputType(), "."))
+	if outputInfo, ok := imageIndex.ByName[outputName]; ok && t.elements[outputInfo.element] == inclusionModeExcluded {
+		return fmt.Errorf("cannot include method %q as the output type %q is excluded", methodName, outputName)
 	}
 	return nil
 }
@@ -524,7 +547,7 @@ func (t *transitiveClosure) addElement(
 			inputMode, outputMode := t.elements[inputInfo.element], t.elements[outputInfo.element]
 			if inputMode == inclusionModeExcluded || outputMode == inclusionModeExcluded {
 				// The input or ouptut is excluded, so this method is also excluded.
-				t.elements[inputInfo.element] = inclusionModeExcluded
+				t.elements[method] = inclusionModeExcluded
 				continue
 			}
 			if err := t.addElement(method, "", false, imageIndex, opts); err != nil {
